@@ -39,6 +39,9 @@ CHECKS = {
     'C13': ('path-language check: product of each engine\'s step() CFG (386/323 blocks, exception edges from the exception-flow analysis) with a hand-written nesting DFA over monitor-macro expansions, callback calls classified by origin and configuration updates; exact abstract interpretation of the 6-bit _flags word for the stable-notice clause; same product for the executor brackets; call-graph and CFG ordering rules for finalize and monitor hand-over',
             'Decides on every CFG path, normal and exceptional, of both engines and of the content executor that notifications are balanced and nested (exits, then transitions, then entries), that configuration updates/content/initData/(un)invoke only occur inside their bracket, that the stable notice is issued exactly when STABLE is newly set and the step returns MACROSTEPPED, and that invoked sessions get their monitors before they start.',
             'Not decided: which states/transitions are reported (values); monitors that throw.'),
+    'C14': ('object-sensitive key extraction (which Data keys a serialize() writes on its returned object and a deserialize() reads from its argument, top level and per array element) compared as sets per pair; member provenance of each key on both sides; run-state coverage from field-write facts; CFG dominance of the MD5 comparison over every restoring call; ordering of data-model and micro-stepper restore',
+            'Decides for the seven writer/reader pairs (interpreter, both engines, both queues, invoker, Event) that they agree on the schema and on which member each key comes from and goes to, that every persistent run-state member is saved and restored (or exempt with reason), that a state string of another document is rejected before anything is applied, that serialize() only accepts stable states, and that data values are restored before invocations are re-run.',
+            'Not decided: behavioural identity of the resumed interpreter under every continuation.'),
     'C15': ('table extraction from if-chains/switches (escape, unescape, jsmn accept sets) compared as relations; forward must-analysis of container non-emptiness on the CFG of Data::fromJSON; linear-form comparison of allocation size and parser capacity',
             'Decides for all byte values that the JSON escape writer, the unescape reader and the jsmn string scanner agree on every escaped character, that Data::fromJSON never peeks or pops an empty stack on any CFG path, and that the sentinel token the walker relies on is kept.',
             'Not decided: equality of round-tripped Data trees for all values; absence of out-of-bounds inside jsmn.c itself; Event<->Data agreement is decided under C14.'),
